@@ -253,7 +253,8 @@ def bufreader_new(e, c, a):
 @model(r"^BufWriter::<.*>::(new|with_capacity)$|^std::io::BufWriter::<.*>::(new|with_capacity)$")
 def bufwriter_new(e, c, a):
     cap = a[0].v if "with_capacity" in c else 8192
-    return BufWriterObj(a[-1], cap)
+    ov = getattr(e, "bufwriter_cap", None)        # harness may shrink the buffer so that drains happen inside add_part
+    return BufWriterObj(a[-1], ov if ov is not None else cap)
 
 
 @model(r"^Cursor::<.*>::new$|^std::io::Cursor::<.*>::new$")
